@@ -20,23 +20,24 @@ type Val struct {
 }
 
 type Env struct {
-	P       *Prog
-	fx      *FnCtx
-	st      *State
-	old     *State
-	pre     *State
-	bound   map[string]Val
-	results []Val
-	pos     token.Pos
-	pkg     *types.Package
-	loop    *loopInfo
-	bv      bool // bv64 mode
-	deps    map[string]bool
-	fuelSelf string // inside the body of this recursive spec function, self-calls use the bound fuel "ly"
-	fuelAll  bool   // in lemma axioms every fueled call uses its own bound fuel variable ly<k>
-	fuelCtr  *int
-	fuelMap  map[string]string // application (without fuel) -> its bound fuel variable
-	fuelNew  bool              // elaborating a trigger: new applications get new fuel variables
+	P         *Prog
+	fx        *FnCtx
+	st        *State
+	old       *State
+	pre       *State
+	bound     map[string]Val
+	results   []Val
+	pos       token.Pos
+	pkg       *types.Package
+	loop      *loopInfo
+	laxLocals bool // call clauses: see instr.go
+	bv        bool // bv64 mode
+	deps      map[string]bool
+	fuelSelf  string // inside the body of this recursive spec function, self-calls use the bound fuel "ly"
+	fuelAll   bool   // in lemma axioms every fueled call uses its own bound fuel variable ly<k>
+	fuelCtr   *int
+	fuelMap   map[string]string // application (without fuel) -> its bound fuel variable
+	fuelNew   bool              // elaborating a trigger: new applications get new fuel variables
 }
 
 func (e *Env) clone() *Env {
@@ -1049,6 +1050,9 @@ func (env *Env) elabCall(x ECall) (Val, error) {
 		}
 		if env.old == nil {
 			return Val{}, fmt.Errorf("fresh without old state")
+		}
+		if v.T.Sort == "Iface" { // an interface value is fresh when its payload was allocated during the call
+			return Val{T: app("Bool", ">=", app("Int", "i_val", v.T), env.old.next)}, nil
 		}
 		return Val{T: app("Bool", ">=", v.T, env.old.next)}, nil
 	case "allocated":
